@@ -124,7 +124,7 @@ impl Prop for C06 {
         let source = (0u8..4, vec(any::<u8>(), 1..40), gen::wconf_light()).prop_map(|(density, mask, conf)| SourceSpec { density, mask, conf });
         let s = (universe, vec(source, 0..=8), prop::sample::select(&MergeKind::ALL[..]), 0u8..4, gen::wconf_light())
             .prop_map(|(universe, sources, kind, add_style, out_conf)| Case { universe, sources, kind, add_style, out_conf });
-        vec![stage("merges", s, tier.pick(1500, 50_000)).shrink(600)]
+        vec![stage("merges", s, tier.pick(6000, 80_000)).shrink(600)]
     }
 
     fn rule(&self) -> String {
@@ -140,7 +140,7 @@ impl Prop for C06 {
     }
 
     fn health(&self, tier: Tier) -> Vec<(&'static str, u64)> {
-        vec![("merge:nontrivial", tier.pick(200, 6000)), ("merge:k=0", tier.pick(30, 1000)), ("merge:empty-source", tier.pick(200, 6000))]
+        vec![("merge:nontrivial", tier.pick(600, 8000)), ("merge:k=0", tier.pick(100, 1500)), ("merge:empty-source", tier.pick(600, 8000))]
     }
 
     fn run(&self, case: &Case, obs: &mut Obs) -> Check {
